@@ -285,7 +285,7 @@ fn drive_aa<VM: VMBinding>(trace: &Trace, rng: &mut Rng, cfg: &AaCfg) {
                 offs.dedup();
                 for off in offs {
                     for (hi, h) in cfg.highs.iter().enumerate() {
-                        let span = if hi == 0 { cfg.low_span.max(4 * a) } else { cfg.wide_span.max(2 * a) };
+                        let span = if hi == 0 { cfg.low_span.max(4 * a) } else { cfg.wide_span.max(a + 2 * ka) };
                         let small = hi == 0 && off < NARROW;
                         let mut regions: Vec<usize> = vec![];
                         let mut l = 0usize;
@@ -476,7 +476,14 @@ pub fn run() {
         drive_aa::<StubVM<3, 6, 0>>(&trace, &mut rng, &cfg);
         if flag("morevms") {
             drive_aa::<StubVM<4, 6, 0>>(&trace, &mut rng, &cfg);
-            drive_aa::<StubVM<2, 12, 0>>(&trace, &mut rng, &cfg);
+            // page-sized maximum alignment: mostly at small addresses (narrow rows), one high part
+            let cfg2 = AaCfg {
+                highs: cfg.highs.iter().copied().take(2).collect(),
+                low_span: cfg.low_span,
+                max_offsets: 3,
+                wide_span: 16,
+            };
+            drive_aa::<StubVM<2, 12, 0>>(&trace, &mut rng, &cfg2);
         }
         drive_fill::<StubVM<2, 3, 0xab>>(&trace);
         drive_fill::<StubVM<3, 5, 0xab>>(&trace);
